@@ -583,6 +583,7 @@ func (c *minecraftConn) ensurePlayPacketQueue(newState states.State) {
 
 	// Remove the play packet queue if it exists
 	if c.playPacketQueue != nil {
+		verifhook.Point("pq.release.begin")
 		if err := c.playPacketQueue.ReleaseQueue(c.bufferNoQueue, c.Flush); err != nil {
 			c.log.Error(err, "error releasing play packet queue")
 		}
